@@ -329,3 +329,14 @@ func fmtThreads(ts []*vrt.Thread) string {
 	}
 	return s
 }
+
+// fieldIface makes a (possibly unexported) field value usable as an interface value.
+func fieldIface(f reflect.Value) any {
+	if f.CanInterface() {
+		return f.Interface()
+	}
+	if f.CanAddr() {
+		return reflect.NewAt(f.Type(), unsafe.Pointer(f.UnsafeAddr())).Elem().Interface()
+	}
+	return nil
+}
